@@ -62,9 +62,9 @@ PROPS = {
     "C03": {
         "title": "encoder output is well-formed, deterministic, shortest form",
         "bounds": "every Encoder method over its FULL argument domain (u8..u64, i8..i64, Int, char, tag/array/map lengths: all 2^64; f32/f64 all patterns; simple: all 256 "
-                  "minus the known finding 20..=31); bytes/str payload <= 4 bytes and lengths up to 65537 through a counting sink; all sequences of 3 calls over 8 call kinds; "
+                  "minus the known finding 20..=31); bytes/str payload <= 4 bytes and lengths up to 65537 through a counting sink; all 10^4 sequences of 4 one-byte calls over 10 call kinds; "
                   "every built-in Encode impl of the C01 rows vs an independent reference encoding",
-        "outside": "payloads > 4 bytes (only their heads, up to 65537), call sequences > 3, ArrayIter/MapIter adaptors",
+        "outside": "payloads > 4 bytes (only their heads, up to 65537), call sequences > 4, ArrayIter/MapIter over more than 2 items",
         "assumptions": [],
         "groups": [core({"quick": ["c03::c03_", "::q::c03"], "thorough": ["c03::c03_", "::c03"]})],
     },
@@ -171,11 +171,36 @@ PROPS = {
         "assumptions": ["serde's own Deserialize impls for primitives, tuples, arrays and Option are part of what is executed (trusted as serde's)"],
         "groups": [serde(["c18::c18_"])],
     },
+    "C20": {
+        "title": "same behaviour in every feature configuration",
+        "bounds": "no cross-build query exists: agreement is shown by TRANSITIVITY through a complete oracle. The identical harness sources of C05 (all integer heads x all accessors), C04 (accessors vs R1/R8), "
+                  "C03 (every Encoder method), C06 (skip vs R3; the documented no-alloc difference is cfg-ed into the oracle) and, with half, C11 steps / C12 are verified against minicbor built with "
+                  "{}, {alloc}, {std} (quick) x {half on/off} (thorough adds the remaining combinations); each harness fixes, for every input in its bound, the Ok/Err outcome, the value and the position, "
+                  "so builds that all satisfy it agree with each other. minicbor-serde: the C17 Serializer/Deserializer harnesses under {half}, {alloc,half}, {std,half}",
+        "outside": "error MESSAGES (static vs formatted) and error classes beyond Ok/Err where the single-build oracle only requires 'an error'; 32-bit targets and atomic32; the alloc-build skip beyond N=3",
+        "assumptions": ["agreement is derived by transitivity (argument), each build is decided by its own queries"],
+        "groups": [
+            core({"quick": ["c05::c05_u", "c05::c05_i", "c05::c05_datatype_i", "c04::c04_", "c03::c03_u", "c03::c03_i", "c03::c03_simple", "c06::c06_lm", "c06::c06_a1_n3", "c06::c06_a1_n2"],
+                  "thorough": ["c05::c05_", "c04::c04_", "c03::c03_", "c06::c06_lm", "c06::c06_a1_n", "::q::c01", "::q::c07"]}, features=()),
+            core({"quick": ["c05::c05_u", "c05::c05_i", "c05::c05_datatype_i", "c04::c04_", "c03::c03_u", "c03::c03_i", "c03::c03_simple", "c06::c06_lm", "c06::c06_a1_n2"],
+                  "thorough": ["c05::c05_", "c04::c04_", "c03::c03_", "c06::c06_lm", "c06::c06_a1_n1", "c06::c06_a1_n2", "c06::c06_a1_n3", "::q::c01", "::q::c07"]}, features=("alloc",)),
+            core({"quick": ["c05::c05_u", "c05::c05_i", "c05::c05_datatype_i", "c04::c04_", "c03::c03_u", "c03::c03_i", "c03::c03_simple"],
+                  "thorough": ["c05::c05_", "c04::c04_", "c03::c03_", "::q::c01", "::q::c07"]}, features=("std",)),
+            core({"quick": ["c05::c05_u8", "c05::c05_i64", "c12::c12_", "c11_gen::q::ib_f9", "c11_gen::q::ib_1b", "c11_gen::q::ib_9f"],
+                  "thorough": ["c05::c05_", "c04::c04_", "c12::c12_", "c11_gen::q::"]}, features=("half", "alloc")),
+            core({"quick": ["c05::c05_u8", "c05::c05_i64", "c12::c12_", "c11_gen::q::ib_f9"],
+                  "thorough": ["c05::c05_", "c04::c04_", "c12::c12_", "c11_gen::q::"]}, features=("half", "std")),
+            serde({"quick": ["c17::c17_ser_u", "c17::c17_ser_i", "c17::c17_de_u", "c17::c17_de_i", "c17::c17_de_seq", "c17::c17_de_map"],
+                   "thorough": ["c17::c17_"]}, features=("half", "alloc")),
+            serde({"quick": ["c17::c17_ser_u", "c17::c17_de_u", "c17::c17_de_seq"], "thorough": ["c17::c17_"]}, features=("half", "std")),
+            serde({"quick": ["c17::c17_ser_u", "c17::c17_de_u", "c17::c17_de_seq"], "thorough": ["c17::c17_"]}, features=()),
+        ],
+    },
     "C11": {
         "title": "token streams are faithful",
         "bounds": "one tokenizer step for each initial byte (quick: the 64 structurally distinct ones, thorough: all 256) with 8 symbolic argument bytes + <= 4 payload bytes: "
                   "token value == head's data-model value, bytes consumed == item length, Token::encode == preferred serialisation of the consumed item; errors drain; "
-                  "None at/beyond the end; sequences of any length follow by induction over steps (argument, not query)",
+                  "end-of-input inside an item ends the stream (None) and drains; at/beyond the end the same mapping applies to Decoder::datatype's end-of-input (argument); sequences of any length follow by induction over steps (argument, not query)",
         "outside": "string payloads > 4 bytes; the induction over token sequences is an argument; signalling half NaNs (excluded by the statement)",
         "assumptions": ["core::str::from_utf8 over-approximated (validated unstubbed in C04)"],
         "groups": [core({"quick": ["c11_gen::q::", "c11::c11_q_"], "thorough": ["c11_gen::", "c11::c11_"]})],
